@@ -51,9 +51,14 @@ CHECKS = {
                      'sheets, evaluate to the target value for ALL ints; every rectangle up to 2x3 (thorough 3x3) at two offsets with Optional[int] cells and a sentinel frame: SUM/COUNT/COUNTA = fold '
                      'over exactly its cells; blank gaps of 0..128 rows (quick: 12 gap lengths around 50/100/128); defined names for cells and ranges; missing cells read as blank.',
                 note=XH_NOTE + ' Addresses are concrete (openpyxl regexes on symbolic address text do not finish); whole-column references and 3-D references are outside.'),
+    'C10': dict(engine='XH', technique='symbolic execution (CrossHair+z3) of IF/AND/OR/NOT through the evaluator with a spy function in its namespace; truth-carrying cells symbolic over bool/int/blank',
+                text='Bounded symbolic model checking: IF selects by Excel truth (bool, non-zero number, blank) for ALL values, evaluates exactly the selected branch (spy log), is unaffected by a 1/0, '
+                     'unknown function, circular reference or Python error in the other branch, nested to depth 2 over AND/OR/NOT; AND/OR over 1..4 scalars and ranges = conjunction/disjunction of non-blank '
+                     'elements; NOT negates; an error among evaluated arguments / as condition is the result.',
+                note=XH_NOTE + ' AND/OR over blanks only is not covered by the statement and excluded.'),
 }
 NA = {
     'C12': 'persist/restore is ten lines around jsonpickle -> json (C encoder) -> gzip/file I/O; no repo-side kernel a solver can quantify over (symbolic values are realised or pickled as proxy objects at the codec boundary)',
 }
-for _p in ['C07', 'C08', 'C10', 'C11', 'C14', 'C15', 'C16', 'C18', 'C19', 'C20']:
+for _p in ['C07', 'C08', 'C11', 'C14', 'C15', 'C16', 'C18', 'C19', 'C20']:
     NA.setdefault(_p, 'check not built yet in this revision (planned: see DESIGN.md §4)')
